@@ -446,6 +446,30 @@ def gen_id_block(lo: int, hi: int, noise: bool, rng: random.Random) -> dict:
     return {"family": "dispatch-ids", "id_block": [lo, hi], "knobs": {}, "client": client, "device": device, "net": {"cuts": {"mode": "coalesce"}}, "actors": [{"id": "a0", "at": {"t": 0.0}, "steps": steps}], "events": events, "end": 50.0, "max_turns": 100000}
 
 
+def gen_every_defined(rng: random.Random) -> dict:
+    """Every defined type id once (the lowest and the highest included), a subscriber registered for each of them."""
+    t = _table()
+    client: dict = {"addresses": ["10.0.0.5"], "keepalive": 600.0}
+    device: dict = {}
+    gen_transport(rng, client, device, noise_p=0.3)
+    names = [t.by_id[i] for i in sorted(t.by_id) if t.by_id[i] != "DisconnectRequest"]
+    order = list(names)
+    rng.shuffle(order)
+    # the ends of the table in front, so that a cut or an early close cannot hide them
+    order.sort(key=lambda n: 0 if n in (names[0], names[-1]) else 1)
+    events = []
+    blk = pick(rng, [1, 7, 16, 64])
+    for k in range(0, len(order), blk):
+        events.append({"at": {"t": 1.0 + (k // blk) * 0.01}, "do": "dev", "act": {"msgs": [[n, rand_fields(rng, n) if rng.random() < 0.3 else {}] for n in order[k : k + blk]], "latency": 0.0}})
+    if rng.random() < 0.5:
+        events.append({"at": {"t": 4.0}, "do": "dev", "act": {"msgs": [["DisconnectRequest", {}]], "latency": 0.0}})
+    steps = [{"do": "connect", "login": False}, {"do": "add_cb", "sid": "s0", "types": names}]
+    if rng.random() < 0.5:
+        steps.append({"do": "add_cb", "sid": "s1", "types": rng.sample(names, 5) + [names[-1]]})
+    steps += [{"do": "sleep", "d": 5.0}, {"do": "disconnect"}]
+    return {"family": "dispatch-defined", "knobs": gen_knobs(rng), "client": client, "device": device, "net": {"cuts": gen_cuts(rng), "c2d_latency": 0.001, "d2c_latency": [pick(rng, [0.0, 0.001])]}, "actors": [{"id": "a0", "at": {"t": 0.0}, "steps": steps}], "events": events, "end": 50.0, "max_turns": 100000}
+
+
 class C12(CheckBase):
     pid = "C12"
     level = "exploration"
@@ -462,6 +486,8 @@ class C12(CheckBase):
             yield gen_unknown_keepalive(rng)
         elif idx % 12 == 3:
             yield gen_early_subscriber(rng)
+        elif idx % 24 == 9:
+            yield gen_every_defined(rng)
         elif idx % 40 == 7:
             lo = rng.randrange(0, 65536 - 512)
             yield gen_id_block(lo, lo + 512, rng.random() < 0.3, rng)
